@@ -15,7 +15,7 @@ META = {
                   'C12_closes_everything proved for every sequence of atomic steps of Model/Pool.v (HostConnection, repaired code); '
                   'model tied to cassandra/pool.py by correspondence after every region. C12v2_* : the same four statements for HostConnectionPool (protocol v1/v2), Model/PoolV2.v, same tie.',
     'level_note': 'Trusted: Coq kernel; the harness (hooking locks, fake session/cluster, socket-less Connection subclass); the atomicity '
-                  'granularity (one step per lock region / unlocked statement group). Not modelled: Condition.wait blocking of HostConnection (the v1/v2 pool's blocked borrower is a parked step), wall-clock borrow '
+                  'granularity (one step per lock region / unlocked statement group). Not modelled: Condition.wait blocking of HostConnection (the blocked borrower of the v1/v2 pool is a parked step), wall-clock borrow '
                   'timeouts, real threads, connect failures inside HostConnectionPool._add_conn_if_under_max, set_keyspace_blocking failing inside _replace.',
     'design_ref': 'DESIGN.md section 4 C12, Appendix A.2',
 }
